@@ -33,7 +33,7 @@ T = {
          "C09 (aes suite: random keys and byte-value families vs Spec.AES)"),
  "C10": ("AesCTR recomputes the counter from a byte offset kept in a 32-bit signed int",
          "more than 2^27 blocks (2 GiB) through one stream object",
-         "C10 thorough tier only (new `ctrlong` suite: 2^27+4 blocks through one object, probes compared with fresh objects started at IV + j — the position law proved as `ctr_counter`; 50 s)"),
+         "C10 thorough tier only (new `ctrlong` suite: 2^27+4 blocks through one object, probes compared with fresh objects started at IV + j — the position law proved as `ctr_position_law`; 50 s)"),
  "C11": ("AesFactory::getName becomes a table lookup guarded by `type < sizeof(names)` (40, not 5)",
          "cipher-mode byte 5..39 in the input file with the echoing printer: verify prints the name before the range check — out-of-bounds read / uncaught exception",
          "C11 (malformed suite: all 256 values of byte 8, echoing printer every third operation, ASan)"),
